@@ -236,8 +236,20 @@ def multi_env_part(case, ctx):
         [obs.observer_config(cfg) for cfg in case["features"]],
         graph_initializer=obs.BUILDERS[case["builder"]],
     )
-    for _episode in range(2):
-        env.reset()
+    # a twin environment (same generator seed) that never sees a rejected step
+    twin = MultiJobShopGraphEnv(
+        GeneralInstanceGenerator(num_jobs=(1, 3), num_machines=(1, 3), duration_range=(1, 5), seed=seed),
+        [obs.observer_config(cfg) for cfg in case["features"]],
+        graph_initializer=obs.BUILDERS[case["builder"]],
+    )
+    for _episode in range(3):
+        ob_a, _info = env.reset()
+        ob_b, _info = twin.reset()
+        ctx.check(
+            obs.obs_snapshot(ob_a) == obs.obs_snapshot(ob_b),
+            "multi-env-diverged",
+            f"episode {_episode}: reset() of the environment that saw rejected steps returns another observation than its twin's",
+        )
         inner = env.single_job_shop_graph_env
         inst_now = inner.instance
         n_j, n_m = inst_now.num_jobs, len(inst_now.jobs[0])
@@ -277,7 +289,15 @@ def multi_env_part(case, ctx):
                 )
             ctx.count("rejected:multi_env")
             op = d.available_operations()[0] if d.available_operations() else d.raw_ready_operations()[0]
-            env.step((op.job_id, op.machines[0]))
+            r_a = env.step((op.job_id, op.machines[0]))
+            r_b = twin.step((op.job_id, op.machines[0]))
+            ctx.check(
+                (obs.obs_snapshot(r_a[0]), r_a[1], r_a[2], r_a[3]) == (obs.obs_snapshot(r_b[0]), r_b[1], r_b[2], r_b[3]),
+                "multi-env-diverged",
+                f"valid step ({op.job_id},{op.machines[0]}) after the rejected {action}: the environment returns "
+                f"something else than its twin that never saw a rejected step (observation shapes "
+                f"{ {k: getattr(v, 'shape', None) for k, v in r_a[0].items()} } vs { {k: getattr(v, 'shape', None) for k, v in r_b[0].items()} })",
+            )
             step_no += 1
 
 
